@@ -137,7 +137,15 @@ def share(res, rid, prop, runner, src_rules, want=None, prefix="", min_keys=1):
     from engine.report import Result
 
     tmp = Result(prop)
-    runner(tmp)
+    try:
+        runner(tmp)
+    except AnalysisError as e:
+        # the sibling's analysis gave up (typically because the tree is broken in a way this property's own rules have
+        # already reported): that must not hide those reports behind an analysis error
+        if res.findings:
+            res.note(f"shared obligations of {src_rules} not evaluated: {e}")
+            return 0
+        raise
     bad = {f.key: f for f in tmp.findings}
     n = 0
     for sr in src_rules:
